@@ -68,7 +68,7 @@ MODEL_BASE = 0x7f3a5c001000
 MODEL_ZBASE = 0x7f3a5d000000      # model address of the zero-sized-item array (provenance "z")
 ERRS = ("IndexError", "TypeError", "OverflowError", "ValueError", "RuntimeError")
 
-CDEF = "struct c16s { short a; char b[3]; }; struct c16e { int x[0]; };"
+CDEF = "struct c16s { short a; char b[3]; }; struct c16e { int x[0]; }; void *malloc(size_t); void free(void *);"
 
 # name, C type, size, struct code / None, signed, flavour
 EKINDS = {
@@ -94,6 +94,23 @@ def get_ffi():
         _ffi = cffi.FFI()
         _ffi.cdef(CDEF)
     return _ffi
+
+
+_allocator = None
+
+
+def get_allocator():
+    """ffi.new_allocator(malloc, free): its arrays are cdata objects of the gc-wrapper kind."""
+    global _allocator
+    if _allocator is None:
+        ffi = get_ffi()
+        libc = ffi.dlopen(None)
+        _allocator = (ffi.new_allocator(libc.malloc, libc.free, should_clear_after_alloc=True), libc)
+    return _allocator[0]
+
+
+def _destructor(x):
+    pass
 
 
 def arr_type(ekname, n=None):
@@ -206,10 +223,11 @@ def item_line(it):
 # ------------------------------------------------------------------ one sequence
 
 class Obj:
-    __slots__ = ("cd", "k", "off", "n", "tid", "isize", "prov", "voidp")
+    __slots__ = ("cd", "k", "off", "n", "tid", "isize", "prov", "voidp", "tag")
 
-    def __init__(self, cd, k, off, n, tid, isize, prov="alloc", voidp=False):
+    def __init__(self, cd, k, off, n, tid, isize, prov="alloc", voidp=False, tag=None):
         self.cd, self.k, self.off, self.n, self.tid, self.isize, self.prov, self.voidp = cd, k, off, n, tid, isize, prov, voidp
+        self.tag = tag          # "array-gc": obtained from ffi.gc(x, destructor) / ffi.new_allocator
 
 
 class Seq:
@@ -222,9 +240,20 @@ class Seq:
         self.ct, self.size, self.signed, self.flav = EKINDS[self.ek]
         init = bytes.fromhex(seq["init"])
         self.total = len(init)
-        if seq["alloc"] == "arr":
+        tag = None
+        if seq["alloc"] == "arr":               # fixed-length type T[n]
             self.root = ffi.new(arr_type(self.ek, self.total // self.size))
             k, n = "arr", self.total // self.size
+        elif seq["alloc"] == "arrv":            # T[] whose length lives in the cdata object
+            self.root = ffi.new(arr_type(self.ek), self.total // self.size)
+            k, n = "arr", self.total // self.size
+        elif seq["alloc"] == "frombuf":         # T[] over a bytearray
+            self.keep = bytearray(self.total)
+            self.root = ffi.from_buffer(arr_type(self.ek), self.keep)
+            k, n = "arr", self.total // self.size
+        elif seq["alloc"] == "allocator":       # T[] from ffi.new_allocator(malloc, free)
+            self.root = get_allocator()(arr_type(self.ek), self.total // self.size)
+            k, n, tag = "arr", self.total // self.size, "array-gc"
         else:
             self.root = ffi.new(ptr_type(self.ek))
             k, n = "own", None
@@ -233,7 +262,7 @@ class Seq:
         self.buf[:] = init
         self.base = int(ffi.cast("uintptr_t", self.root))
         self.mem = bytearray(init)             # oracle memory
-        self.objs = [Obj(self.root, k, 0, n, 1, self.size)]
+        self.objs = [Obj(self.root, k, 0, n, 1, self.size, tag=tag)]
         self.lines = ["new %d %s" % (MODEL_BASE, init.hex() or "-"),
                       "obj %s %d %d 1 %d 0" % ("arr:%d" % n if k == "arr" else "own", MODEL_BASE, self.size,
                                                1 if self.flav == "char" else 0)]
@@ -664,6 +693,29 @@ class Seq:
         cd = self.ffi.cast(ptr_type(self.ek), 0)
         return self._define(Obj(cd, "ptr", 0, None, 1, self.size, "abs"))
 
+    def op_gcwrap(self, op):
+        """ffi.gc(x, destructor), `times` times: an array cdata of the same type, address and length."""
+        o = self.objs[op["o"]]
+        cd = o.cd
+        for _ in range(op.get("times", 1)):
+            cd = self.ffi.gc(cd, _destructor)
+        if self.rel(cd, o.prov) != o.off % M64 or self.ffi.typeof(cd) is not self.ffi.typeof(o.cd):
+            raise InfraError("ffi.gc changed the address or the type")
+        return self._define(Obj(cd, o.k, o.off, o.n, o.tid, o.isize, o.prov, o.voidp,
+                                tag="array-gc" if o.k == "arr" else None))
+
+    def op_sizeof(self, op):
+        """ffi.sizeof(x) of an array cdata: length * sizeof(T)."""
+        o = self.objs[op["o"]]
+        orc = ("ok", o.n * o.isize) if o.k == "arr" else ("ok", 8 if o.k in ("ptr", "own") else 4)
+        r = self._exc(lambda: self.ffi.sizeof(o.cd))
+        if o.k == "arr":
+            good = r[0] == "ok" and o.isize > 0 and r[1] % o.isize == 0
+            want = "ok %d" % (r[1] // o.isize) if good else "err sizeof=%r" % (r[1],)
+        else:
+            want = "err TypeError"
+        return r, orc, "len %d" % op["o"], want, False
+
     def op_zdefine(self, op):
         """An array whose items have size 0 (`int[4][0]`): only addressof is applied to it."""
         cd = self.ffi.new("int[4][0]")
@@ -698,6 +750,8 @@ def category(s, o):
     if o.k == "own":
         return "owning-pointer"
     if o.k == "arr":
+        if o.tag:
+            return o.tag
         return "array-owning" if o is s.objs[0] else "array-view"
     if o.voidp:
         return "pointer-void"
@@ -710,7 +764,7 @@ def category(s, o):
     return "pointer" if (o.off % M64) % s.size == 0 else "pointer-misaligned"
 
 
-OPS_ON_OBJECTS = ("get", "set", "rmw", "slice", "sset", "add", "sub", "addrof", "len")
+OPS_ON_OBJECTS = ("get", "set", "rmw", "slice", "sset", "add", "sub", "addrof", "len", "sizeof")
 MIN_CASES = 10
 # (operation, category) pairs the scripted part of every run guarantees at least MIN_CASES times
 REQUIRED = ([(op, c) for op in ("get", "set", "rmw", "slice", "sset", "add", "sub", "addrof", "len")
@@ -718,7 +772,8 @@ REQUIRED = ([(op, c) for op in ("get", "set", "rmw", "slice", "sset", "add", "su
             + [(op, c) for op in ("get", "set", "slice", "add", "sub", "addrof", "len")
                for c in ("pointer-null", "non-indexable")]
             + [(op, c) for op in ("add", "sub", "addrof", "len") for c in ("pointer-void",)]
-            + [(op, c) for op in ("add", "sub", "len") for c in ("pointer-retyped",)])
+            + [(op, c) for op in ("add", "sub", "len") for c in ("pointer-retyped",)]
+            + [(op, "array-gc") for op in ("len", "sizeof", "get", "set", "rmw", "slice", "sset", "add", "sub", "addrof")])
 
 
 # ------------------------------------------------------------------ generation
@@ -945,6 +1000,8 @@ def gen_op(rng, s):
         return {"op": "offsetof", "form": rng.choice(forms), "i": i}
     if r < 0.965:
         return {"op": "len", "o": oi}
+    if r < 0.972 and o.prov == "alloc" and o.k == "arr" and o.tid == 1:
+        return rng.choice([{"op": "gcwrap", "o": oi, "times": rng.choice([1, 1, 2])}, {"op": "sizeof", "o": oi}])
     if r < 0.975 and o.prov == "alloc" and o.k != "other" and not o.voidp and o.tid == 1:
         return {"op": "castoff", "o": oi, "k": rng.choice([1, -1, 3, size + 1, size])}
     if r < 0.983 and o.prov == "alloc" and o.k != "other" and o.tid == 1:
@@ -964,7 +1021,8 @@ def new_sequence(rng):
     n = rng.randint(1, 10)
     margin = rng.randint(2, 4)
     total = n + 2 * margin
-    seq = {"ek": ek, "alloc": "arr", "init": rnd_bytes(rng, total * size).hex(), "ops": []}
+    seq = {"ek": ek, "alloc": rng.choice(["arr", "arr", "arr", "arrv", "frombuf", "allocator"]),
+           "init": rnd_bytes(rng, total * size).hex(), "ops": []}
     # first operation: the tested array is a view with margins on both sides
     seq["ops"].append({"op": "slice", "o": 0, "a": ["i", margin], "b": ["i", margin + n], "c": ["n"]})
     return seq
@@ -1042,6 +1100,52 @@ def scripted_sequences(rng):
             ops.append({"op": "addrof", "o": 0, "i": i})
         ops += [{"op": "len", "o": 0}] * 10
         seqs.append({"ek": ek, "alloc": "own", "init": rnd_bytes(rng, size).hex(), "ops": ops})
+
+        # ---- G. arrays that are gc-wrapper objects: ffi.gc(x, destructor) for x = ffi.new('T[]', n), a slice view,
+        #         ffi.from_buffer('T[]', bytearray), a twice wrapped array, a fixed-size T[n] (control), and arrays
+        #         from ffi.new_allocator(malloc, free): an array cdata of length n whatever produced it
+        for alloc, pre, n_, lo in [("arrv", [{"op": "gcwrap", "o": 0, "times": 1}], 6, 0),
+                                   ("arr", [{"op": "slice", "o": 0, "a": _I(2), "b": _I(6), "c": NONE},
+                                            {"op": "gcwrap", "o": 1, "times": 1}], 4, 2),
+                                   ("frombuf", [{"op": "gcwrap", "o": 0, "times": 1}], 6, 0),
+                                   ("arrv", [{"op": "gcwrap", "o": 0, "times": 2}], 6, 0),
+                                   ("arr", [{"op": "gcwrap", "o": 0, "times": 1}], 6, 0),
+                                   ("allocator", [], 6, 0)]:
+            total = 6 if lo == 0 else 8
+            g = len(pre)                       # id of the gc-wrapper array (the allocator's array is object 0)
+            if alloc == "allocator":
+                g = 0
+            ops = list(pre)
+            ops += [{"op": "len", "o": g}, {"op": "sizeof", "o": g}]
+            for i in [0, n_ - 1, n_, -1]:
+                ops.append({"op": "get", "o": g, "k": _I(i)})
+            for i in [0, n_ - 1]:
+                ops.append({"op": "set", "o": g, "k": _I(i), "v": val()})
+                ops.append({"op": "rmw", "o": g, "k": _I(i), "d": d()})
+            if lo:                             # margins on both sides: a wrongly accepted store stays inside
+                for i in [n_, -1]:
+                    ops.append({"op": "set", "o": g, "k": _I(i), "v": val()})
+                    ops.append({"op": "rmw", "o": g, "k": _I(i), "d": d()})
+            ops.append({"op": "set", "o": g, "k": _I(1 << 63), "v": val()})
+            ops.append({"op": "rmw", "o": g, "k": NONE, "d": 1})
+            for a, b in [(0, n_), (1, n_ - 1), (n_, n_), (0, n_ + 1), (-1, 2), (2, 1)]:
+                ops.append({"op": "slice", "o": g, "a": _I(a), "b": _I(b), "c": NONE})
+            ops += [{"op": "sset", "o": g, "a": _I(1), "b": _I(3), "c": NONE, "rhs": {"t": "list", "vs": [val(), val()]}},
+                    {"op": "sset", "o": g, "a": _I(0), "b": _I(n_), "c": NONE, "rhs": {"t": "list", "vs": [val()]}},
+                    {"op": "sset", "o": g, "a": _I(0), "b": _I(n_ + 1), "c": NONE,
+                     "rhs": {"t": "list", "vs": [val() for _ in range(n_ + 1)]}} if lo else
+                    {"op": "sset", "o": g, "a": _I(2), "b": _I(1), "c": NONE, "rhs": {"t": "list", "vs": []}}]
+            if flav != "float":                # the wrapper as the source of a slice assignment (same length / not)
+                ops += [{"op": "sset", "o": 0, "a": _I(lo), "b": _I(lo + n_), "c": NONE, "rhs": {"t": "carr", "o": g}},
+                        {"op": "sset", "o": 0, "a": _I(0), "b": _I(n_ - 1), "c": NONE, "rhs": {"t": "carr", "o": g}}]
+            ops += [{"op": "add", "o": g, "w": _I(1), "sign": 1, "rev": False},
+                    {"op": "add", "o": g, "w": _I(n_), "sign": 1, "rev": True},
+                    {"op": "addrof", "o": g, "i": _I(n_ - 1)}, {"op": "addrof", "o": g, "i": _I(1 << 63)},
+                    {"op": "len", "o": g}, {"op": "sizeof", "o": g}]
+            seqs.append({"ek": ek, "alloc": alloc, "init": rnd_bytes(rng, total * size).hex(), "ops": ops})
+            # pointer - wrapper
+            k = len(ops)
+            seqs[-1]["ops"] += [{"op": "sub", "a": g, "b": g}]
 
         # ---- B. an array with margins: 0 = T[10] (owning), 1 = its view [3:7], 2 = pointer to item 4,
         #         3 = null, 4 = non-indexable, 5 = void *, 6 = retyped pointer, 7 = view [0:4], 8 = misaligned
@@ -1166,7 +1270,7 @@ def translators(ctx):
 
 def nontrivial_key(ek, op, real):
     t = op["op"]
-    if t in ("castoff", "retype", "voidp", "null", "other", "zdefine"):
+    if t in ("castoff", "retype", "voidp", "null", "other", "zdefine", "gcwrap"):
         return None
     args = tuple((k, repr(v)) for k, v in sorted(op.items()) if k not in ("op",))
     if real[0] == "err" or t in ("set", "sset", "slice", "addrof", "sub") or op.get("o", 0) > 1:
